@@ -565,7 +565,7 @@ fn fold_constraint_set(
 
     match set.operator {
         SetOperator::Intersection => match (&set.base, &folded_operant) {
-            (b, _) if !b.per_visible() => Ok(None),
+            (b, _) if !b.per_visible() => Ok(folded_operant),
             (b, None) => Ok(Some(b.clone())),
             (b, Some(f)) if !f.per_visible() => Ok(Some(b.clone())),
             (
